@@ -263,7 +263,7 @@ def plan(tier, seed):
         specs.append({"kind": "random", "n": 6000 if tier == "quick" else 60000,
                       "seed": common.seed_for(PROP, tier, seed, i)})
     # + the repository's import/export tests, unedited, with the same contracts attached
-    specs.append(common.pytest_spec())
+    specs.insert(0, common.pytest_spec())  # first, so that it runs alongside the others
     return specs
 
 
